@@ -488,6 +488,20 @@ fn set_class(a: &[R], b: &[R]) -> String {
 
 fn check_sets(ctx: &Ctx, ops: &[OpV], sets: &[Vec<R>], rep: &mut Report, layout: &str, stride: (usize, usize)) {
     let rsets: Vec<ResultTextSelectionSet> = sets.iter().map(|s| ctx.set(s)).collect();
+    // the same sets built another way: first member, sort(), then the other members (a sorted set keeps itself sorted on add)
+    let rsets_sorted: Vec<ResultTextSelectionSet> = sets
+        .iter()
+        .map(|s| {
+            let mut t = TextSelectionSet::new(ctx.res().handle());
+            for (n, r) in s.iter().enumerate() {
+                t.add(ctx.ts(*r).inner().clone());
+                if n == 0 {
+                    t.sort();
+                }
+            }
+            t.as_resultset(ctx.store)
+        })
+        .collect();
     let mut pairidx = 0usize;
     for (i, a) in sets.iter().enumerate() {
         for (j, b) in sets.iter().enumerate() {
@@ -507,6 +521,18 @@ fn check_sets(ctx: &Ctx, ops: &[OpV], sets: &[Vec<R>], rep: &mut Report, layout:
                         );
                     }
                     Ok(got) => {
+                        // the answer does not depend on how the sets were put together
+                        if a.len() > 1 || b.len() > 1 {
+                            rep.eval();
+                            match guard(|| rsets_sorted[i].test_set(&o, &rsets_sorted[j])) {
+                                Ok(v) if v != got => rep.violation(
+                                    format!("C13/set/{}/law/built-sorted-vs-collected/{}", op.name(), set_class(a, b)),
+                                    json!({"layout": layout, "A": a, "B": b, "collected": got, "first-member-then-sort-then-add": v}),
+                                ),
+                                Err(p) => rep.violation(format!("C13/set/{}/panic-on-sorted-set/{}", op.name(), p.class()), json!({"layout": layout, "A": a, "B": b, "panic": p.msg, "at": p.loc})),
+                                _ => {}
+                            }
+                        }
                         let pos = op.with(|o| o.negate = false);
                         if let Some(mut want) = ref_sets(&pos, a, b, &ctx.text) {
                             if op.negate {
